@@ -1,8 +1,119 @@
 import RbV.Basic.Codec
-/-! Driver for property C17 (line protocol → verdict). -/
-namespace RbV.Drv.C17
-open RbV.Codec
+import RbV.Spec.RankSelect
+/-! Driver for property C17 (rank/select and wavelet matrix equal naive counting).
 
-def verdict (_toks : List String) (_out : String) : String := "bad-op unimplemented"
+```
+c17 rs k:<k> n:<n> f:<0|1> <hex> r:<all|list> s:<all|list> => r1:<…> r0:<…> s1:<…> s0:<…> g:<hex>
+c17 wm <hex text> => <ranks of A>;<C>;<G>;<T>;<N>;<$>
+c17 tab dna2int => <128 entries>
+```
+Expected values come from `rankRef` / `selectRef` / `occ` (evaluated through the one-pass tables
+`prefixCounts` / `positions`, proved equal to them). -/
+namespace RbV.Drv.C17
+open RbV.Codec RbV.Spec.RankSelect
+
+def kvOf (tok key : String) : Option String :=
+  match tok.splitOn ":" with
+  | [k, v] => if k = key then some v else none
+  | _ => none
+
+/-- little-endian bits of the bytes, first `n` -/
+def bitsOf (bytes : List Nat) (n : Nat) : List Bool :=
+  (bytes.flatMap (fun b => (List.range 8).map (fun i => b.testBit i))).take n
+
+def optStr : Option Nat → String
+  | some v => toString v
+  | none => "N"
+
+def parseOptNat (s : String) : Option (Option Nat) :=
+  if s = "N" then some none else s.toNat?.map some
+
+def firstDiff : List (Option Nat) → List (Option Nat) → Nat → Option Nat
+  | [], [], _ => none
+  | a :: as, b :: bs, k => if a = b then firstDiff as bs (k + 1) else some k
+  | _, _, k => some k
+
+def cmpField (name : String) (idx : List Nat) (exp : List (Option Nat)) (tok : String) : Option String :=
+  match (kvOf tok name).bind (fun s => parseList parseOptNat s) with
+  | none => some s!"bad-op output-{name}"
+  | some got =>
+    match firstDiff exp got 0 with
+    | none => none
+    | some k => some s!"diff rs-{name} q:{idx.getD k 0} exp:{optStr (exp.getD k none)} got:{match got[k]? with | some g => optStr g | none => "<missing>"}"
+
+def verdictRs (kT nT fT hx rT sT out : String) : String :=
+  match (kvOf kT "k").bind String.toNat?, (kvOf nT "n").bind String.toNat?, (kvOf fT "f").bind String.toNat?,
+        parseHex hx, kvOf rT "r", kvOf sT "s" with
+  | some k, some n, some _, some bytes, some rl, some sl =>
+    if k = 0 ∨ n = 0 ∨ bytes.length ≠ (n + 7) / 8 then "bad-op shape" else
+    let bits := bitsOf bytes n
+    match (if rl = "all" then some (List.range (n + 1)) else parseNatList rl),
+          (if sl = "all" then some (List.range (n + 2)) else parseNatList sl) with
+    | some ris, some sjs =>
+      let pc1 := (prefixCounts true bits 0).toArray
+      let pc0 := (prefixCounts false bits 0).toArray
+      let ps1 := (positions true bits 0).toArray
+      let ps0 := (positions false bits 0).toArray
+      let er1 := ris.map (fun i => pc1[i]?)
+      let er0 := ris.map (fun i => pc0[i]?)
+      let es1 := sjs.map (fun j => if j = 0 then none else ps1[j - 1]?)
+      let es0 := sjs.map (fun j => if j = 0 then none else ps0[j - 1]?)
+      if out.startsWith "PANIC" || out.startsWith "HANG" || out.startsWith "CRASH" then "reject rs-" ++ out else
+      match out.splitOn " " with
+      | [a, b, c, d, g] =>
+        match cmpField "r1" ris er1 a with
+        | some v => v
+        | none =>
+        match cmpField "r0" ris er0 b with
+        | some v => v
+        | none =>
+        match cmpField "s1" sjs es1 c with
+        | some v => v
+        | none =>
+        match cmpField "s0" sjs es0 d with
+        | some v => v
+        | none =>
+          if kvOf g "g" ≠ some (toHex bytes) then "diff rs-get exp:" ++ toHex bytes else
+          let ones := ps1.size
+          let s := 32 * k
+          "ok" ++ (if n ≥ 9 then " nt" else "") ++ s!" rs k{k}"
+            ++ (if n > s then " multi-sb" else "") ++ (if n % s = 0 then " n=m*s" else "")
+            ++ (if n % 8 = 0 then " n%8=0" else " padded")
+            ++ (if ones = 0 then " all0" else "") ++ (if ones = n then " all1" else "")
+            ++ (if n > 300 then " long" else "")
+      | _ => "bad-op output"
+    | _, _ => "bad-op queries"
+  | _, _, _, _, _, _ => "bad-op parse"
+
+def verdictWm (hx out : String) : String :=
+  match parseHex hx with
+  | some text =>
+    if text.isEmpty then "bad-op empty" else
+    if out.startsWith "PANIC" || out.startsWith "HANG" || out.startsWith "CRASH" then "reject wm-" ++ out else
+    match parseListNE parseNatList out ';' with
+    | some rows =>
+      let exp := dnaSyms.map (fun c => (prefixCounts true (text.map (· == c)) 0))
+      if rows = exp then
+        let distinct := (dnaSyms.filter (fun c => text.contains c)).length
+        "ok" ++ (if text.length ≥ 2 ∧ distinct ≥ 2 then " nt" else "") ++ s!" wm syms{distinct}"
+          ++ (if text.length ≥ 33 then " len>=33" else "")
+      else
+        let bad := (List.range 6).filter (fun r => rows[r]? ≠ exp[r]?)
+        s!"diff wm sym:{dnaSyms.getD (bad.headD 0) 0} exp:{showNatList (exp.getD (bad.headD 0) [])}"
+    | none => "bad-op output"
+  | none => "bad-op parse"
+
+def verdictTab (out : String) : String :=
+  match parseNatList out with
+  | some t =>
+    if tableOk t then "ok tab" ++ (if t = dna2intLit then "" else " drift") else "reject dna2int-not-injective-on-ACGTN$"
+  | none => if out.startsWith "BADCASE" then "reject dna2int-table-not-found" else "bad-op output"
+
+def verdict (toks : List String) (out : String) : String :=
+  match toks with
+  | ["rs", k, n, f, hx, r, s] => verdictRs k n f hx r s out
+  | ["wm", hx] => verdictWm hx out
+  | ["tab", "dna2int"] => verdictTab out
+  | _ => "bad-op arity"
 
 end RbV.Drv.C17
